@@ -10,7 +10,7 @@
        clause-ordered, for pipelines of any length.
    The resolver and the rest of the back end are tied by the end-to-end oracle, not by proof. *)
 From Coq Require Import List ZArith QArith NArith Bool Permutation.
-From PV Require Import Model.Rel Proofs.RelFacts Model.SplitBase Gen.GenSplit Proofs.SplitProofs Proofs.Theta2 Proofs.Theta2c Proofs.SegmentSound Proofs.SegmentDistinct Model.SelectPluck Proofs.PluckSound.
+From PV Require Import Model.Rel Proofs.RelFacts Model.SplitBase Gen.GenSplit Proofs.SplitProofs Proofs.Theta2 Proofs.Theta2c Proofs.SegmentSound Proofs.SegmentDistinct Model.SelectPluck Proofs.PluckSound Model.SplitOff Proofs.SplitOffProofs.
 Import ListNotations.
 
 (* ---- (c) table obligation on what anchor.rs says NOW ---- *)
@@ -152,6 +152,36 @@ Theorem c01_only_sorts_before_join : forall (row : Type) a t b j,
 Proof. exact SegmentDistinct.only_sorts_before_join. Qed.
 Print Assumptions c01_only_sorts_before_join.
 
+(* ---- (c') the CODE's split loop.  Model/SplitOff.v mirrors split_off_back with everything it consults (get_requirements,
+   infer_complexity, can_materialize, the bookkeeping of required / available / selected / missing columns); the decision table
+   is a parameter -- the check plugs in the function translated from the source (Gen/GenSplit.v) and compares the model with
+   every real call (hook 3aa4f6d).  For every decision table, every pipeline and every requested output: *)
+(* nothing is lost or reordered, and the atomic pipeline is the consumed suffix without its Selects, under the new Select *)
+Theorem c01_split_off_back_partition : forall split records pipeline output,
+  let r := SplitOff.split_off_back split records pipeline output in
+  exists remaining suffix, pipeline = remaining ++ suffix /\
+    res_atomic r = TSelect (res_select r) :: filter SplitOffProofs.notsel suffix /\
+    res_remaining_len r = match remaining with [] => None | _ => Some (Datatypes.S (length remaining)) end.
+Proof. exact SplitOffProofs.split_off_back_partition. Qed.
+Print Assumptions c01_split_off_back_partition.
+
+(* every split is forced: by the table, or by a Compute (or a column of an Aggregate) whose complexity exceeds what its users allow *)
+Theorem c01_split_off_back_stop_forced : forall split records pipeline output w,
+  res_why (SplitOff.split_off_back split records pipeline output) = Some w ->
+  exists remaining' t s, (exists suffix, pipeline = remaining' ++ t :: suffix) /\ SplitOffProofs.forced split records s t w.
+Proof. exact SplitOffProofs.split_off_back_stop_forced. Qed.
+Print Assumptions c01_split_off_back_stop_forced.
+
+(* every column a transform of the atomic pipeline requires is available in it (a column of its From / Joins or a Compute
+   materialized in it) or projected by the previous SELECT (`missing`) *)
+Theorem c01_split_off_back_requirements_met : forall split records pipeline output,
+  let r := SplitOff.split_off_back split records pipeline output in
+  forall t, In t (res_atomic r) -> SplitOffProofs.notsel t = true ->
+  exists s_t, forall q, In q (get_requirements t (SplitOffProofs.following_after records s_t t) (s_required s_t)) ->
+    In (r_col q) (SplitOffProofs.avail_of split records pipeline output) \/ In (r_col q) (res_missing r).
+Proof. exact SplitOffProofs.split_off_back_requirements_met. Qed.
+Print Assumptions c01_split_off_back_requirements_met.
+
 (* ---- (b') the CODE's clause assembly.  Model/SelectPluck.v mirrors translate_select_pipeline's plucking (which conditions
    go to WHERE / HAVING, the first Aggregate behind the break, the LAST Sort, all Takes, DISTINCT) and is compared field by field
    with every real call (hook 7400a50).  Read as SQL clauses, what it plucks is the SELECT Theta-2 assembles: *)
@@ -206,10 +236,10 @@ Proof. exact PluckSound.kinds_theta_spec. Qed.
 Print Assumptions c01_kinds_theta_spec.
 
 (* ---- (a) the edge cases the property names, as facts of the reference semantics ---- *)
-Theorem c01_agg_one_row : forall cols l, length (Rel.apply (TAggregate cols) l) = 1%nat.
+Theorem c01_agg_one_row : forall cols l, length (Rel.apply (Rel.TAggregate cols) l) = 1%nat.
 Proof. exact agg_one_row. Qed.
 Print Assumptions c01_agg_one_row.
-Theorem c01_group_empty_no_rows : forall by_ cols, Rel.apply (TGroupAgg by_ cols) [] = [].
+Theorem c01_group_empty_no_rows : forall by_ cols, Rel.apply (Rel.TGroupAgg by_ cols) [] = [].
 Proof. exact group_empty_no_rows. Qed.
 Print Assumptions c01_group_empty_no_rows.
 Theorem c01_count_counts_nulls : forall vs, Rel.agg_apply ACount vs = VInt (Z.of_nat (length vs)).
@@ -225,6 +255,19 @@ Proof. reflexivity. Qed.
 Example c01_ex_segment : clause_ordered [KFrom; KJoin; KFilter; KCompute; KComputeAgg; KAggregate; KFilter; KSort; KTake; KTake] = true.
 Proof. vm_compute. reflexivity. Qed.
 Example c01_ex_bad_segment : clause_ordered [KFrom; KTake; KFilter] = false.
+Proof. vm_compute. reflexivity. Qed.
+(* F25 at model level (inputs = the real call for `from t | aggregate {x = min a} | aggregate {n = count x}`): nothing downstream
+   requires the aggregate's column, so it is neither selected nor materialized -- the SELECT of the aggregating pipeline is empty *)
+Example c01_ex_f25_model :
+  let r := SplitOff.split_off_back split_required records
+             [TFrom [0%nat]; TCompute (mkCompute 2%nat true (XOp [XCol 0%nat]) None); TAggregate [] [2%nat] [Some (mkCompute 2%nat true (XOp [XCol 0%nat]) None)]; TSelect []] [] in
+  res_select r = [] /\ map kind_of (res_atomic r) = [KSelect; KFrom; KComputeAgg; KAggregate] /\ res_why r = None.
+Proof. vm_compute. repeat split; reflexivity. Qed.
+(* a requirement stop: the windowed w = sum b is asked for by a filter at Plain complexity... here by a later Compute *)
+Example c01_ex_requirement_stop :
+  res_why (SplitOff.split_off_back split_required records
+             [TFrom [0%nat; 1%nat]; TCompute (mkCompute 3%nat false (XOp [XCol 1%nat]) (Some (mkWin [] [])));
+              TCompute (mkCompute 4%nat false (XOp [XCol 3%nat; XLeaf]) (Some (mkWin [] []))); TSelect [0%nat; 4%nat]] [0%nat; 4%nat]) = Some StopCompute.
 Proof. vm_compute. reflexivity. Qed.
 (* the code's plucking on a concrete pipeline: WHERE [1], GROUP BY 3, HAVING [4], ORDER BY the last sort, both takes *)
 Example c01_ex_pluck :
